@@ -77,7 +77,8 @@ def run(chk):
                                       f"raised {exc['type']}: {exc['msg']}", exc)
                     continue
                 tens = it.tensor(idx)
-                expr = Expr(res.sympy, real=True).expand()
+                # (sympy's expand would multiply (bracket)**-n out)
+                expr = build.expand_mul(Expr(res.sympy, real=True))
                 try:
                     ev, ctx = build.valpres(
                         Expr(tens.sympy, real=True), expr, op="valpres",
@@ -88,6 +89,12 @@ def run(chk):
                     chk.machinery_errors.append(f"{what}: {u}")
                     continue
                 ev["text"]["post"] = ev["text"]["post"][:300]
+                if ev["_mincost"] > 2.5e7:
+                    # one event is one TLC state (one worker): fully expanded
+                    # third-order definitions are beyond ~10 min even on the
+                    # smallest model
+                    chk.count("too_expensive_skipped")
+                    continue
                 chk.add_event(ev)
                 chk.add_sample({"request": what, "n_terms": len(ev["post"]),
                                 "models": ev["_sizes"]})
@@ -115,7 +122,7 @@ def run(chk):
             try:
                 ev, ctx = build.valpres(
                     Expr(it.tensor(idx).sympy, real=True),
-                    Expr(res.sympy, real=True).expand(), op="valpres",
+                    build.expand_mul(Expr(res.sympy, real=True)), op="valpres",
                     key="itmd:t4_2", what=what, tgt_syms=get_symbols(idx),
                     names=names, global_models=refs4)
             except adapter.Unsupported as u:
@@ -174,8 +181,8 @@ def run(chk):
                     continue
                 try:
                     ev, ctx = build.valpres(
-                        Expr(sign * a.sympy, real=True).expand(),
-                        Expr(b.sympy, real=True).expand(), op="valpres",
+                        build.expand_mul(Expr(sign * a.sympy, real=True)),
+                        build.expand_mul(Expr(b.sympy, real=True)), op="valpres",
                         key=f"itmd:{name}:declared-symmetry", what=what,
                         tgt_syms=get_symbols(default))
                 except adapter.Unsupported as u:
